@@ -37,13 +37,15 @@ type ev struct {
 }
 
 type replay struct {
-	Case   int       `json:"case"`
-	Seed   uint64    `json:"seed"`
-	Graph  graphCase `json:"graph"`
-	Steer  *steer    `json:"steer,omitempty"`
-	Phase  string    `json:"phase,omitempty"`
-	Trace  []ev      `json:"trace,omitempty"`
-	Expect []string  `json:"expected,omitempty"`
+	Case  int       `json:"case"`
+	Seed  uint64    `json:"seed"`
+	Graph graphCase `json:"graph"`
+	Steer *steer    `json:"steer,omitempty"`
+	Phase string    `json:"phase,omitempty"`
+	Trace []ev      `json:"trace,omitempty"`
+	// request-phase trace kept while the response phase is judged
+	ReqTrace []ev     `json:"request_trace,omitempty"`
+	Expect   []string `json:"expected,omitempty"`
 }
 
 const reqDir, respDir = "StreamTypeRequest", "StreamTypeResponse"
@@ -137,8 +139,13 @@ func genGraph(r *sim.Rand) graphCase {
 	}
 	if r.Chance(1, 3) {
 		gc.QuotaYAML = map[string]string{"q.yaml": "quotas:\n  - id: qc\n    filter:\n      url: a.com/*\n    strategy:\n      concurrent:\n        max_request_count: 1000000\n"}
-		if r.Bool() {
+		switch r.Intn(3) {
+		case 0:
 			gc.QuotaYAML["q.yaml"] = "quotas:\n  - id: qf\n    filter:\n      url: a.com/*\n    strategy:\n      fixed_window:\n        max: 100000000\n        interval: 1\n        interval_unit: hour\n"
+		case 1:
+			// two concurrent quotas on different patterns that both match a.com/x: two system flows at the
+			// start (increment, request) and two at the end (decrement, response) of one transaction
+			gc.QuotaYAML["q.yaml"] += "  - id: qd\n    filter:\n      url: a.com/x\n    strategy:\n      concurrent:\n        max_request_count: 1000000\n"
 		}
 	}
 	return gc
@@ -388,6 +395,7 @@ func runCase(idx int, args sim.Args, r *sim.Rand, gc graphCase, steers []steer, 
 			}
 			rtrace := drain()
 			rp.Trace = rtrace
+			rp.ReqTrace = trace
 			rp.Phase = "response"
 			if rres.Err != nil {
 				v.Violate("C04/error/response", rres.Err.Error(), rp)
@@ -599,7 +607,43 @@ func judgeActions(reqEv []ev, res sim.ReqResult, rp replay, v *sim.Verdict) {
 	}
 }
 
+// systemOrder: quota ids in the order their system-flow processors ran in one direction.
+func systemOrder(evs []ev) []string {
+	var out []string
+	for _, e := range evs {
+		if isSystem(e.Flow) {
+			if i := strings.Index(e.Key, "_"); i > 0 {
+				out = append(out, e.Key[:i])
+			}
+		}
+	}
+	return out
+}
+
+// judgeSystemOrder: quotas whose system flows ran on the request (increment) and on the response
+// (decrement) of one transaction are unwound in reverse order. Only judged for quotas on different URL
+// patterns (their relative order is then fixed by the path through the filter tree for both lists).
+func judgeSystemOrder(reqEv, respEv []ev, rp replay, v *sim.Verdict) {
+	req, resp := systemOrder(reqEv), systemOrder(respEv)
+	if len(req) < 2 || len(resp) < 2 {
+		return
+	}
+	v.Count("transactions_with_two_system_flows_in_both_directions", 1)
+	if len(req) != len(resp) {
+		return
+	}
+	for i := range req {
+		if req[i] != resp[len(resp)-1-i] {
+			v.Violate("C04/flow-order/system-flows-not-reversed-on-response", fmt.Sprintf("quota system flows ran %v on the request and %v on the response (want the reverse)", req, resp), rp)
+			return
+		}
+	}
+}
+
 func judgeResponse(gc graphCase, flows map[string]sim.GFlow, s steer, respEv []ev, answerFlow, answeredBy string, reqOrder []string, rp replay, v *sim.Verdict) {
+	if answeredBy == "" {
+		judgeSystemOrder(rp.ReqTrace, respEv, rp, v)
+	}
 	byFlow := map[string][]ev{}
 	for _, e := range respEv {
 		if !isSystem(e.Flow) {
